@@ -38,6 +38,20 @@ def bits8(v):
     return list(b.bits[:8])
 
 
+def subst_bits(bits, facts):
+    """apply single-bit facts learned from branch conditions on this path"""
+    if not facts or bits is None:
+        return bits
+    out = []
+    for b in bits:
+        if isinstance(b, tuple) and b[0] == "s" and b[1] in facts:
+            v = facts[b[1]]
+            out.append(1 - v if b[2] else v)
+        else:
+            out.append(b)
+    return out
+
+
 def term_eq(a, b):
     if a == b:
         return True
